@@ -49,6 +49,12 @@ Model/Boot.vos Model/Boot.vok Model/Boot.required_vos: Model/Boot.v Model/Term.v
 Model/OpTable.vo Model/OpTable.glob Model/OpTable.v.beautified Model/OpTable.required_vo: Model/OpTable.v 
 Model/OpTable.vio: Model/OpTable.v 
 Model/OpTable.vos Model/OpTable.vok Model/OpTable.required_vos: Model/OpTable.v 
+Model/Solutions.vo Model/Solutions.glob Model/Solutions.v.beautified Model/Solutions.required_vo: Model/Solutions.v 
+Model/Solutions.vio: Model/Solutions.v 
+Model/Solutions.vos Model/Solutions.vok Model/Solutions.required_vos: Model/Solutions.v 
+Model/SolutionsCheck.vo Model/SolutionsCheck.glob Model/SolutionsCheck.v.beautified Model/SolutionsCheck.required_vo: Model/SolutionsCheck.v Model/Solutions.vo
+Model/SolutionsCheck.vio: Model/SolutionsCheck.v Model/Solutions.vio
+Model/SolutionsCheck.vos Model/SolutionsCheck.vok Model/SolutionsCheck.required_vos: Model/SolutionsCheck.v Model/Solutions.vos
 Model/OpCheck.vo Model/OpCheck.glob Model/OpCheck.v.beautified Model/OpCheck.required_vo: Model/OpCheck.v Model/Term.vo Model/OpTable.vo Gen/Bootstrap_gen.vo
 Model/OpCheck.vio: Model/OpCheck.v Model/Term.vio Model/OpTable.vio Gen/Bootstrap_gen.vio
 Model/OpCheck.vos Model/OpCheck.vok Model/OpCheck.required_vos: Model/OpCheck.v Model/Term.vos Model/OpTable.vos Gen/Bootstrap_gen.vos
@@ -118,3 +124,9 @@ Proofs/OpTable.vos Proofs/OpTable.vok Proofs/OpTable.required_vos: Proofs/OpTabl
 Props/C18.vo Props/C18.glob Props/C18.v.beautified Props/C18.required_vo: Props/C18.v Model/OpTable.vo Proofs/OpTable.vo Model/OpCheck.vo
 Props/C18.vio: Props/C18.v Model/OpTable.vio Proofs/OpTable.vio Model/OpCheck.vio
 Props/C18.vos Props/C18.vok Props/C18.required_vos: Props/C18.v Model/OpTable.vos Proofs/OpTable.vos Model/OpCheck.vos
+Proofs/Solutions.vo Proofs/Solutions.glob Proofs/Solutions.v.beautified Proofs/Solutions.required_vo: Proofs/Solutions.v Model/Solutions.vo
+Proofs/Solutions.vio: Proofs/Solutions.v Model/Solutions.vio
+Proofs/Solutions.vos Proofs/Solutions.vok Proofs/Solutions.required_vos: Proofs/Solutions.v Model/Solutions.vos
+Props/C12.vo Props/C12.glob Props/C12.v.beautified Props/C12.required_vo: Props/C12.v Model/Solutions.vo Proofs/Solutions.vo
+Props/C12.vio: Props/C12.v Model/Solutions.vio Proofs/Solutions.vio
+Props/C12.vos Props/C12.vok Props/C12.required_vos: Props/C12.v Model/Solutions.vos Proofs/Solutions.vos
